@@ -9,12 +9,9 @@ from c02 import summarize, strip_log
 
 def run_repl(args):
     script, timeout = args
-    try:
-        p = subprocess.run([HYEONG_BIN, "--color", "never"], input=script.encode("utf-8"), stdout=subprocess.PIPE,
-                           stderr=subprocess.PIPE, timeout=timeout)
-        return p.stdout.decode("utf-8", "replace"), p.stderr.decode("utf-8", "replace"), p.returncode
-    except subprocess.TimeoutExpired as e:
-        return (e.stdout or b"").decode("utf-8", "replace"), "", "timeout"
+    p = run_capped([HYEONG_BIN, "--color", "never"], input=script.encode("utf-8"), timeout=timeout, cap=1 << 22)
+    if p.returncode == "timeout": return p.stdout.decode("utf-8", "replace"), "", "timeout"
+    return p.stdout.decode("utf-8", "replace"), p.stderr.decode("utf-8", "replace"), p.returncode
 
 
 BANNER = "Hyeo-ung Programming Language\ntype help for help\n"
@@ -97,6 +94,11 @@ def main(tier, seed):
             outs = list(ex.map(run_repl, [(s, 10) for s in scripts]))
         model = model_lines(["m.repl " + enc_text(s) for s in scripts], timeout=300, chunks=64)
         ends = {}
+        # loaded machine: sessions that should have ended get one much longer retry before judging (in parallel, and
+        # only so many: a change that makes sessions endless must not make the check endless)
+        again = [i for i, (o, m) in enumerate(zip(outs, model)) if o[2] == "timeout" and " " in m and not unjudged(m) and m.split(" ", 1)[1] != "hang"][:3 * NCPU]
+        with ThreadPoolExecutor(max_workers=NCPU) as ex:
+            for i, r in zip(again, ex.map(run_repl, [(scripts[i], 60) for i in again])): outs[i] = r
         for si, (s, (p, rec, pre_clear), (so, se, rc), m) in enumerate(zip(scripts, metas, outs, model)):
             rep.count("repl-sessions")
             if unjudged(m):
@@ -107,8 +109,6 @@ def main(tier, seed):
             mt, mend = m.split(" ", 1)
             mt = dec_text(mt)
             ends[mend.split(" ")[0]] = ends.get(mend.split(" ")[0], 0) + 1
-            if rc == "timeout" and mend != "hang":
-                so, se, rc = run_repl((s, 60))      # loaded machine: one much longer retry before judging
             # property oracle: what the session shows = what the whole run writes
             whole_o, whole_e, whole_end = summarize(rec)
             wo, we = dec_text(whole_o or "-"), dec_text(whole_e or "-")
